@@ -696,6 +696,26 @@ func main() {
 		add(res[i], j.b...)
 	}
 	extra := map[string]interface{}{}
+	// informational only: histories about objects OUTSIDE the property text (C13 names the payload
+	// slice, read buffer and header) whose reused-and-scribbled run differs from the fresh run.
+	// The specification oracle asks nothing of them; the model comparison still covers them.
+	obs := map[string]int{"outgoing_rtcp_objects_aliased": 0, "attributes_map_aliased": 0,
+		"outgoing_rtcp_objects_histories": 0, "attributes_map_histories": 0}
+	for i := range res {
+		switch res[i].Kind {
+		case "rtcp-write":
+			obs["outgoing_rtcp_objects_histories"]++
+			if res[i].Diff {
+				obs["outgoing_rtcp_objects_aliased"]++
+			}
+		case "attr-write":
+			obs["attributes_map_histories"]++
+			if res[i].Diff {
+				obs["attributes_map_aliased"]++
+			}
+		}
+	}
+	extra["observations_outside_property"] = obs
 	if o.Tier == "thorough" {
 		fails = append(fails, raceParent(o, extra)...)
 	}
